@@ -62,3 +62,12 @@ Proof. exact dec_enc_certificate_request. Qed.
 Theorem C06_certificate_status_coherent : forall ty resp b s, 0 <= ty < 256 ->
   enc_certificate_status ty resp = Some b -> dec_certificate_status (b ++ s) = Some ((ty, resp), s).
 Proof. exact dec_enc_certificate_status. Qed.
+
+(* the server hello and the library's hello retry request (ServerHello layout under handshake type 6): what the specification
+   encodes decodes to the same version, random, session id, cipher suite, compression method and extensions, whatever follows *)
+Theorem C06_spec_server_hello_roundtrip : forall h b s, sh_ok h -> enc_server_hello h = Some b ->
+  dec_server_hello_typed 2 (b ++ s) = Some (h, s).
+Proof. exact dec_enc_server_hello. Qed.
+Theorem C06_spec_hello_retry_request_roundtrip : forall h b s, sh_ok h -> enc_hello_retry_request h = Some b ->
+  dec_server_hello_typed 6 (b ++ s) = Some (h, s).
+Proof. exact dec_enc_hello_retry_request. Qed.
